@@ -100,6 +100,18 @@ Definition rounds_bound (D big : Z) (ws : list Z) : Z :=
 Definition law_rounds (D big rounds : Z) (ws : list Z) : bool :=
   negb (forallb (Z.ltb 0) ws) || Z.leb rounds (rounds_bound D big ws).
 
+(* 108: two sessions opened over the same objects differ only in Go's map iteration order.
+   In exact arithmetic the results are identical (C12_loop_pointwise); in float64 the
+   accumulation order of increased/decreased differs, and a last-bit difference can flip a
+   0.1-tolerance decision, so the shares may differ by up to that tolerance.  The law: every
+   deserved value of the two runs agrees within 0.1 + slack, and the overused answers agree
+   unless one of them is at the tolerance boundary. *)
+Definition law_runs_agree (D : nat) (ab : list (obs * obs)) : bool :=
+  forallb (fun p : obs * obs =>
+    let (a, b) := p in
+    alldims D (fun j => Qle_bool (qabs (val0 (cnth (o_des a) j) - val0 (cnth (o_des b) j))) (eps + slack))
+    && (near_boundary D a || near_boundary D b || Bool.eqb (o_over a) (o_over b))) ab.
+
 (* tolerant comparison of a model value with an observed one *)
 Definition close (x y : Q) : bool :=
   Qle_bool (qabs (x - y)) ((2 # 1000000) + (1 # 1000000000) * qabs x).
@@ -110,3 +122,13 @@ Definition cclose (a b : cell) : bool :=
   | _, _ => false
   end.
 Definition vclose (D : nat) (a b : vec) : bool := alldims D (fun j => cclose (cnth a j) (cnth b j)).
+
+(* 109: the literal clause "the result does not depend on iteration order" on the float
+   implementation: two map orders give the same deserved values (within the 1e-6 resolution of
+   the observation).  FALSE on the real plugin for a small fraction of inputs (known finding
+   C12/map-order-dependent-deserved, deviation <= 0.1 = minResource); law 108 is the version
+   with that tolerance. *)
+Definition law_runs_identical (D : nat) (ab : list (obs * obs)) : bool :=
+  forallb (fun p : obs * obs =>
+    let (a, b) := p in
+    alldims D (fun j => close (val0 (cnth (o_des a) j)) (val0 (cnth (o_des b) j)))) ab.
